@@ -89,8 +89,9 @@ def run(chk: lib.Check):
     pr = chk.prove()
     quick = chk.tier == "quick"
     rng = chk.rng
-    n_hist = 6 if quick else 60
-    n_steps = 25 if quick else 60
+    n_hist = 12 if quick else 80
+    n_steps = 30 if quick else 60
+    wfstats = collections.Counter()
     specs = corpus.model_specs(chk.tier)
     opstats = collections.Counter()
     cases = []
@@ -120,6 +121,15 @@ def run(chk: lib.Check):
             tracked = [p for p in loader.trees if p.suffix not in graph.VISUAL and p.parts[0] == "\0"]
             before = {p: A.nodes(loader.trees[p]) for p in tracked}
             nodes0 = {p: list(before[p]) for p in tracked}
+            for p in tracked:   # the theorems' well-formedness hypothesis, measured on the real state
+                ns = before[p]
+                ids = [u for n in ns for u in set(n[3])]
+                hrefs = [n[5] for n in ns if n[5] is not None]
+                wfstats["fragments"] += 1
+                wfstats["ids_unique"] += len(ids) == len(set(ids))
+                wfstats["handles_unique"] += len({n[0] for n in ns}) == len(ns)
+                wfstats["hrefs_unique"] += len(hrefs) == len(set(hrefs))
+                wfstats["regular"] += all(set(n[3]) == set(n[4]) for n in ns)
             steps = {p: [] for p in tracked}
             expect = {p: [] for p in tracked}
             raw0 = graph.raw_scan_ids(loader)
@@ -172,7 +182,7 @@ def run(chk: lib.Check):
     chk.correspond("From V Require Import Model.Graph.", "w_history", cases, tag="C03_hist", shard=1,
                    describe=lambda i: descs[i], timeout=900)
     chk.coverage.update({
-        "histories": n_hist, "steps_per_history": n_steps,
+        "histories": n_hist, "steps_per_history": n_steps, "wf_hypothesis_on_real_states": dict(wfstats),
         "operation_mix": {f"{k[0]}:{k[1]}": v for k, v in sorted(opstats.items())},
         "rule": "random API histories (create / create with bad arguments / delete with purging / whole-list delete / move / link add+remove / "
                 "list assignment / attribute set / save / viewpoint activation) on scratch copies of corpus models; after every step the real "
